@@ -367,6 +367,7 @@ type zzvStepOpt struct {
 
 type zzvOpInfo struct {
 	op     int  // 0 Pin recursive, 1 Pin direct, 2 PinWithMode, 3 Unpin, 4 Update
+	eff    int  // like op, but PinWithMode(Recursive) = 0, PinWithMode(Direct) = 1 (2: invalid mode)
 	cid    int  // target (Update: from)
 	to     int  // Update only
 	flag   bool // Update: unpin
@@ -374,7 +375,7 @@ type zzvOpInfo struct {
 }
 
 func zzvStep(p *pinner, d *zzvDag, m *zzvModel, o zzvStepOpt) zzvOpInfo {
-	info := zzvOpInfo{cid: -1, to: -1}
+	info := zzvOpInfo{cid: -1, to: -1, eff: 2}
 	nOps := 4
 	if o.faults {
 		nOps = 5
@@ -445,6 +446,11 @@ func zzvStep(p *pinner, d *zzvDag, m *zzvModel, o zzvStepOpt) zzvOpInfo {
 		mode := ipfspinner.Mode(verifrt.NondetI64("mode"))
 		err = p.PinWithMode(ctx, d.cids[i], mode, name)
 		if mode == ipfspinner.Recursive {
+			info.eff = 0
+		} else if mode == ipfspinner.Direct {
+			info.eff = 1
+		}
+		if mode == ipfspinner.Recursive {
 			if err == nil {
 				m.set(i, zzvRec, name)
 			}
@@ -512,5 +518,8 @@ func zzvStep(p *pinner, d *zzvDag, m *zzvModel, o zzvStepOpt) zzvOpInfo {
 		verifrt.Assume(err == nil)
 	}
 	info.op, info.failed = op, err != nil
+	if op != 2 {
+		info.eff = op
+	}
 	return info
 }
